@@ -3,16 +3,17 @@ import XmlRsModel.Thm.C02
 import XmlRsModel.Lemmas.AbsDoc
 /-! Property C01: well-formed documents are accepted and yield the infoset they denote.
     FULL STATEMENT (completeness direction):  `∀ d st, WFA d → parseDoc (render st d) = .ok (denote d, [])`.
-    PROVED for the profile without DOCTYPE (`rendering_parses`, `rendering_parses_at_model_fuel`,
+    PROVED for the whole supported profile - XML declaration, Misc, DOCTYPE with internal subset (element, attribute-list,
+    general-entity and notation declarations, comments, PIs), element tree (`rendering_parses`, `rendering_parses_at_model_fuel`,
     `surface_syntax_is_irrelevant`): a concrete document `CDoc` is an abstract document together with every
     surface-syntax choice a rendering can make (white space inside tags and around `=`, either quote, empty-element
-    tag or start/end pair, Misc items and white space around the root); EVERY concrete document that meets the
+    tag or start/end pair, the layout of the XML declaration and of every declaration of the internal subset, Misc items
+    and white space around the root); EVERY concrete document that meets the
     lexical side conditions of the productions (`CDoc.ok`, decidable) is parsed by the grammar translated from the
     current source, completely, to exactly the abstract document it renders.  The proof is a completeness proof of
     the PEG (`Lemmas/Runs*.lean`: ordered choice and greedy repetition never take a wrong turn on a rendering)
-    followed by `abs (tree) = erase` (`Lemmas/Abs*.lean`).  Documents with a DOCTYPE are
-    covered by the tie against the independent denotation oracle, not by this theorem (hence the other theorems
-    here keep their `_partial` names).
+    followed by `abs (tree) = erase` (`Lemmas/Abs*.lean`).  Outside the theorem: parameter entities (the library
+    reports them as unsupported) and the entity-usage constraints recorded as finding `entity-wfc`.
     Also proved: what a character reference denotes (for every digit string), determinism and
     rest-discipline of the parse, and that the reported items are exactly an abstraction of one
     derivation tree of the whole text (no item can come from nowhere). -/
@@ -70,29 +71,29 @@ theorem items_come_from_the_text_partial (s : Str) (d : IDoc) (rest : Str)
 
 /-! ### completeness on renderings -/
 open Lex in
-/-- EVERY rendering is parsed to the document it renders: for every concrete document without DOCTYPE whose pieces meet the lexical side conditions (`CDoc.ok`), whose nesting stays within the parser's limit
+/-- EVERY rendering is parsed to the document it renders: for every concrete document whose pieces meet the lexical side conditions (`CDoc.ok`), whose nesting stays within the parser's limit
     and whose references are declared (`checkDoc`), the parser - run with any sufficient amount of fuel - consumes the
     whole text and returns exactly the abstract document, whatever white space, quotes and tag forms were chosen -/
 theorem rendering_parses (d : CDoc) (hok : d.ok = true) (hdepth : d.root.depth ≤ maxDepth_element)
-    (hchk : checkDoc d.erase = .ok ()) :
+    (hgroups : doctypeDepth d.doctype ≤ maxDepth_children) (hchk : checkDoc d.erase = .ok ()) :
     ∃ f0, ∀ f, f0 ≤ f → parseDocFuel env false f d.str = .ok (d.erase, []) := by
   obtain ⟨f0, hrun⟩ := runs_document d hok
   refine ⟨f0, fun f hf => ?_⟩
   have hd := docBody_depth d
   have h1 : ¬ ((docBody d).elemDepth > maxDepth_element) := by omega
-  have h2 : ¬ ((docBody d).ntDepth N.children > maxDepth_children) := by rw [hd.2]; simp [maxDepth_children]
+  have h2 : ¬ ((docBody d).ntDepth N.children > maxDepth_children) := by rw [hd.2]; omega
   simp only [parseDocFuel, hrun f hf, cstDoc_eq, absDocument_cst d hok, hchk, h1, h2, decide_false, Bool.and_false,
     Bool.false_and, Bool.false_eq_true, if_false]
 
 /-- the same at the fuel the model's `parseDoc` uses: the answer is the document, unless the fuel formula of the
     model were too small (an artefact of the model, never observed by the tie; see C03 `parse_answer_stable`) -/
 theorem rendering_parses_at_model_fuel (d : CDoc) (hok : d.ok = true) (hdepth : d.root.depth ≤ maxDepth_element)
-    (hchk : checkDoc d.erase = .ok ()) :
+    (hgroups : doctypeDepth d.doctype ≤ maxDepth_children) (hchk : checkDoc d.erase = .ok ()) :
     parseDoc d.str = .ok (d.erase, []) ∨ parseDoc d.str = .error .fuel := by
   have hrun := Lex.runs_document d hok
   have hd := Lex.docBody_depth d
   have h1 : ¬ ((Lex.docBody d).elemDepth > maxDepth_element) := by omega
-  have h2 : ¬ ((Lex.docBody d).ntDepth N.children > maxDepth_children) := by rw [hd.2]; simp [maxDepth_children]
+  have h2 : ¬ ((Lex.docBody d).ntDepth N.children > maxDepth_children) := by rw [hd.2]; omega
   rcases hrun.at_fuel (xmlFuel d.str) with h | h
   · left
     simp only [parseDoc, parseDocWith_eq, parseDocFuel, h, Lex.cstDoc_eq, Lex.absDocument_cst d hok, hchk, h1, h2, decide_false,
@@ -103,10 +104,11 @@ theorem rendering_parses_at_model_fuel (d : CDoc) (hok : d.ok = true) (hdepth : 
 /-- surface-syntax choices never change the result: two renderings of the same abstract document parse to the same
     document -/
 theorem surface_syntax_is_irrelevant (d1 d2 : CDoc) (h1 : d1.ok = true) (h2 : d2.ok = true) (he : d1.erase = d2.erase)
-    (hd1 : d1.root.depth ≤ maxDepth_element) (hd2 : d2.root.depth ≤ maxDepth_element) (hchk : checkDoc d1.erase = .ok ()) :
+    (hd1 : d1.root.depth ≤ maxDepth_element) (hd2 : d2.root.depth ≤ maxDepth_element)
+    (hg1 : doctypeDepth d1.doctype ≤ maxDepth_children) (hg2 : doctypeDepth d2.doctype ≤ maxDepth_children) (hchk : checkDoc d1.erase = .ok ()) :
     ∃ f0, ∀ f, f0 ≤ f → parseDocFuel env false f d1.str = parseDocFuel env false f d2.str := by
-  obtain ⟨f1, hf1⟩ := rendering_parses d1 h1 hd1 hchk
-  obtain ⟨f2, hf2⟩ := rendering_parses d2 h2 hd2 (he ▸ hchk)
+  obtain ⟨f1, hf1⟩ := rendering_parses d1 h1 hd1 hg1 hchk
+  obtain ⟨f2, hf2⟩ := rendering_parses d2 h2 hd2 hg2 (he ▸ hchk)
   exact ⟨max f1 f2, fun f hf => by rw [hf1 f (by omega), hf2 f (by omega), he]⟩
 
 /-- the hypotheses are satisfiable by a document that uses every construct of the profile (PI and white space in the
@@ -116,13 +118,27 @@ theorem surface_syntax_is_irrelevant (d1 d2 : CDoc) (h1 : d1.ok = true) (h2 : d2
 def exAttr1 : CAttr := ⟨[' '], ⟨some ['x', 'm', 'l', 'n', 's'], ['p']⟩, [], [' '], '"', [.text ['u']]⟩
 def exAttr2 : CAttr := ⟨['\n', ' '], ⟨some ['p'], ['k']⟩, [' '], [], '\'', [.text ['v', '"'], .entRef ['a','m','p'], .charRef ['6','5'] false]⟩
 def exAttr3 : CAttr := ⟨[' '], ⟨none, ['x', 'm', 'l', 'n', 's', 'f', 'o', 'o']⟩, [], [], '"', [.text ['1']]⟩
+def exDoctype : CDoctype := ⟨[' '], ⟨none, ['a']⟩, some ([' '], .pubId [' '] '"' ['-', '/', '/', 'X'] ['\n'] '\'' ['u', '.', 'd', 't', 'd']), [' '],
+  some ([.ws ['\n'],
+         .elementDecl [' '] ⟨none, ['a']⟩ [' '] (.children [] (.name ⟨none, ['b']⟩ .opt) false
+            (.cons [] [' '] (.group [' '] (.name ⟨none, ['c']⟩ .one) true (.cons [' '] [' '] (.name ⟨some ['p'], ['d']⟩ .star) .nil) [] .plus) .nil) [' '] .star) [],
+         .elementDecl [' '] ⟨none, ['c']⟩ [' '] (.mixedStar [] [([' '], [' '], ⟨none, ['b']⟩)] [' ']) [' '],
+         .elementDecl [' '] ⟨none, ['b']⟩ ['\t'] .empty [],
+         .attlist [' '] ⟨none, ['a']⟩ [⟨[' '], ⟨some ['p'], ['k']⟩, [' '], .kw .cdata, [' '], .implied⟩,
+            ⟨['\n', ' '], ⟨none, ['t']⟩, [' '], .enumeration [] ['x'] [([' '], [], ['y'])] [], [' '], .value (some [' ']) '"' [.text ['x']]⟩,
+            ⟨[' '], ⟨none, ['n']⟩, [' '], .notationTy [' '] [] ['g'] [] [' '], [' '], .required⟩] [' '],
+         .entity [' '] ['e'] [' '] (.internal '\'' [.text ['v', '"'], .charRef ['6', '5'] false, .peRef ['q'], .entRef ['l', 't']]) [],
+         .entity [' '] ['u'] [' '] (.external (.sysId [' '] '"' ['f']) (some ([' '], [' '], ['g']))) [' '],
+         .notationDecl [' '] ['g'] [' '] (.pubOnly [' '] '\'' ['i', 'd']) [' '],
+         .pi ['t'] [], .comment ['c']], [' '])⟩
 def exDoc : CDoc := ⟨some ⟨[' ', '\n'], [' '], [], '\'', ['0'], some ([' '], [], [' '], '"', ['U', 'T', 'F', '-', '8']), some (['\t'], [], [], '\'', false), [' ']⟩,
   [.ws ['\n'], .pi ['x', 'm', 'l', '-', 's'] [' ', 'x'], .ws [' ']],
   .elem ⟨none, ['a']⟩ [exAttr1, exAttr2, exAttr3] [' '] false
     [.elem ⟨none, ['b']⟩ [] [] true [] [], .text ['t'], .entRef ['l','t'], .cdata ['c', ']'], .comment ['c', '-', 'd'],
      .elem ⟨none, ['c']⟩ [] [' '] false [.text ['z']] [' '], .pi ['q'] []] ['\t'],
-  [.ws ['\n'], .comment ['e']]⟩
-example : exDoc.ok = true ∧ exDoc.root.depth ≤ maxDepth_element := by decide
+  [.ws ['\n'], .comment ['e']],
+  some (exDoctype, [.ws ['\n']])⟩
+example : exDoc.ok = true ∧ exDoc.root.depth ≤ maxDepth_element ∧ doctypeDepth exDoc.doctype ≤ maxDepth_children := by decide
 example : checkDoc exDoc.erase = .ok () := by rfl
 
 example : charOfRef ['6', '5'] false = some 'A' ∧ charOfRef ['4', '1'] true = some 'A' ∧
